@@ -83,7 +83,7 @@ def parts(tier):
         Part("triples", "enum", enum=enum_triples, exhaustive=True, shards=32),
         Part("amounts", "hyp", strategy=gen_conv(), n=600000 if big else 30000),
         Part("cross", "hyp", strategy=gen_cross(), n=30000 if big else 3000),
-        Part("universe", "hyp", strategy=universe.gen_conv_case(), n=150000 if big else 6000, chunk=1500),
+        Part("universe", "hyp", strategy=universe.gen_conv_case(max_steps=20 if big else 10), n=300000 if big else 6000, chunk=1500),
     ]
 
 
